@@ -43,6 +43,9 @@ const SETUPS = {
   optsProps: (T) => `(props: {}, ctx: SetupContext<${T}>) => () => null, { props: { own: String } }`,
   optsNameProps: (T) => `(props: { q: string }, { emit }: SetupContext<${T}>) => () => null, { name: 'Own', 'props': {} }`,
   fnExprDestructured: (T) => `function (props: {}, { emit, attrs }: SetupContext<${T}>) { return () => null; }`,
+  // SetupContext takes a second type argument (the slots)
+  twoTypeArgs: (T) => `(props: {}, ctx: SetupContext<${T}, SlotsType<{ default: () => any }>>) => () => null`,
+  twoTypeArgsFn: (T) => `function (props: {}, { emit }: SetupContext<${T}, {}>) { return () => null; }`,
   arrowTypedProps: (T) => `(props: { q: string }, ctx: SetupContext<${T}>) => () => null`,
 };
 const NO_EMITS = {
@@ -74,6 +77,14 @@ function render(c) {
       localIife: `export const C = (() => {\n  ${body}\n})();`,
     }[c.scope];
     return `${R.PRELUDE}${wrap}\n`;
+  }
+  if (c.scope === 'shadowReach') {
+    // an inner declaration shadows an outer one of the same name and reaches it through a third, module-level type
+    const ns = c.names.map((i) => NAMES[i]);
+    const third = Math.max(1, Math.ceil(ns.length / 3));
+    const p1 = ns.slice(0, third), p2 = ns.slice(third, 2 * third), p3 = ns.slice(2 * third);
+    const sigs = (xs) => `{ ${xs.map((x) => sig(x)).join('; ')} }`;
+    return `${R.PRELUDE}type Ev = ${sigs(p3)};\ntype Mid = ${sigs(p2)} & Ev;\nfunction make() {\n  type Ev = ${sigs(p1)} & Mid;\n  return defineComponent(${SETUPS[c.setup]('Ev')});\n}\nexport const C = make();\n`;
   }
   if (c.scope === 'laterVueImport') {
     // further import declarations from 'vue' after the one that names defineComponent
@@ -146,7 +157,8 @@ function spaces(tier) {
       name: 'E:event-sets×encodings',
       bounds: { names: NAMES, max_names: 3, encodings: ENC_KEYS, setup_forms: Object.keys(SETUPS), positions: ['before', 'after'], scopes: ['module', 'function declaration', 'arrow', 'function expression', 'object method', 'IIFE', 'mixed (parents at module level)'] },
       *gen() {
-        for (const names of nameSets(tier === 'thorough')) for (const enc of ENC_KEYS) for (const setup of Object.keys(SETUPS)) for (const scope of ['module', 'local', 'localArrow', 'localFnExpr', 'localMethod', 'localIife', 'mixed', 'twice', 'shadowed', 'shadowedAfter', 'laterVueImport']) for (const pos of (['mixed', 'twice', 'shadowed', 'shadowedAfter', 'laterVueImport'].includes(scope) ? ['before'] : ['before', 'after'])) {
+        for (const names of nameSets(tier === 'thorough')) for (const enc of ENC_KEYS) for (const setup of Object.keys(SETUPS)) for (const scope of ['module', 'local', 'localArrow', 'localFnExpr', 'localMethod', 'localIife', 'mixed', 'twice', 'shadowed', 'shadowedAfter', 'laterVueImport', 'shadowReach']) for (const pos of (['mixed', 'twice', 'shadowed', 'shadowedAfter', 'laterVueImport', 'shadowReach'].includes(scope) ? ['before'] : ['before', 'after'])) {
+          if (scope === 'shadowReach' && enc !== 'fnType') continue; // its declarations are fixed, the encoding dimension does not apply
           yield { sp: 'E', names, enc, setup, scope, pos };
         }
       },
